@@ -784,6 +784,10 @@ func runHistory(idx int, ops []string, scratch, plz string) ([]result, []oracleF
 		case "rmout":
 			if t := s.targets[f[1]]; t != nil {
 				os.RemoveAll(filepath.Join(rr.root, "plz-out/gen", pkgOf(t.Label), t.Out))
+				// the model's `remove` drops the whole tree of the target, optional output included (a `fileOpt` is one
+				// tree): remove the discovered `<out>.extra` as well, otherwise a later cache hit shows a lingering extra
+				// the model cannot represent (seen: hello -> x -> world, rmout, build = hit)
+				os.RemoveAll(filepath.Join(rr.root, "plz-out/gen", pkgOf(t.Label), t.Out+".extra"))
 				delete(lastInputs, f[1])
 			}
 			res = append(res, result{op, "ok", false})
